@@ -314,7 +314,7 @@ func Gen08(t *rapid.T) Case08 {
 			inner = gen.Pick(t, "near", c08Near)
 		} else {
 			n := rapid.IntRange(0, 20).Draw(t, "len")
-			alphabet := []string{":", ":", ":", ":", "0", "0", "1", "1", "a", "A", "f", "F", ".", ".", "9", "%", "g", "x", "\uff41", "\uff26", "\uff11", "\u0663", "18446744073709551617", "4294967297", "256"}
+			alphabet := append([]string{":", ":", ":", ":", "0", "0", "1", "1", "a", "A", "f", "F", ".", ".", "9", "%", "g", "x", "\uff41", "\uff26", "\uff11", "\u0663", "18446744073709551617", "4294967297", "256"}, gen.LowByteAliases[:12]...)
 			var sb strings.Builder
 			for i := 0; i < n; i++ {
 				sb.WriteString(alphabet[rapid.IntRange(0, len(alphabet)-1).Draw(t, "ch")])
@@ -333,7 +333,14 @@ func Gen08(t *rapid.T) Case08 {
 		if rapid.IntRange(0, 2).Draw(t, "atEnd") == 0 {
 			pos = len(inner) // appended at the very end: one piece / part too many, trailing separators
 		}
-		ins := gen.Pick(t, "ins", []string{":", "::", "0", "00000", "g", ".", ".1", "1.2.3.4", "%", "]", "[", "ffff:", ":0", ".5", ":9", ":1.2.3.4", ".255.255", "::1", "\uff41", "\uff11", "\u0663", "18446744073709551616", "4294967296", "0000000000000000000000"})
+		ins := gen.Pick(t, "ins", append([]string{":", "::", "0", "00000", "g", ".", ".1", "1.2.3.4", "%", "]", "[", "ffff:", ":0", ".5", ":9", ":1.2.3.4", ".255.255", "::1", "\uff41", "\uff11", "\u0663", "18446744073709551616", "4294967296", "0000000000000000000000"}, gen.LowByteAliases...))
+		if rapid.IntRange(0, 3).Draw(t, "replaceDigit") == 0 && len(inner) > 0 {
+			// replace one character by an alias instead of inserting
+			p := rapid.IntRange(0, len(inner)-1).Draw(t, "rpos")
+			inner = inner[:p] + gen.Pick(t, "alias", gen.LowByteAliases) + inner[p+1:]
+			pos = 0
+			ins = ""
+		}
 		if rapid.IntRange(0, 2).Draw(t, "del") == 0 && pos < len(inner) {
 			inner = inner[:pos] + inner[pos+1:]
 		} else {
